@@ -14,13 +14,15 @@ func init() { register("C18", "proof", C18) }
 
 func C18(ctx *Ctx) {
 	R := ctx.R
-	R.Explanation = "Absence of shared writable state, decided on the whole module (every function, including those not reachable from the API): (globals) for every package-level variable - of the module or of another package - a forward taint propagation from its address, through element/field addressing, slicing, loads of reference-typed contents, interface conversions, phis and non-escaping locals, finds no store, map update, copy/append/delete through it outside package initialisers; (escape) where such a reference is passed to a callee, the callee's parameter summary (same propagation from the parameter, CHA for interface calls, allowlist of read-only standard-library functions) neither writes through it nor lets it escape, and it is never stored into an instance, captured, sent or returned (pointers to zero-size types excepted); (stdlib) every function called outside the module is on the allowlist of stateless or internally synchronised functions; (no-hidden-sharing) no goroutine is started and sync/unsafe are not imported. With no shared writable memory, operations on instances with disjoint reachable heaps cannot race or influence each other (Go memory model)."
+	R.Explanation = "Absence of shared writable state, decided on the whole module (every function, including those not reachable from the API): (globals) for every package-level variable - of the module or of another package - a forward taint propagation from its address, through element/field addressing, slicing, loads of reference-typed contents, interface conversions, phis and non-escaping locals, finds no store, map update, copy/append/delete through it outside package initialisers; (escape) where such a reference is passed to a callee, the callee's parameter summary (same propagation from the parameter, CHA for interface calls, allowlist of read-only standard-library functions) neither writes through it nor lets it escape, and it is never stored into an instance, captured, sent or returned (pointers to zero-size types excepted); (stdlib) every function called outside the module is on the allowlist of stateless or internally synchronised functions; (no-hidden-sharing) no goroutine is started and sync/unsafe are not imported. (self-bound) types that keep method values bound to their own receiver (cpualt.CPU's opcode table) re-bind them after every whole-value assignment, so a forked instance never executes on its origin's state. With no shared writable memory, operations on instances with disjoint reachable heaps cannot race or influence each other (Go memory model)."
 	R.Trusted = []string{"go/packages + go/ssa", "the taint propagation rules of tool/rules/effects.go cover every way a Go reference can be derived (no unsafe, no reflection-based writes on globals: reflect is only used on caller-owned values)", "allowlisted standard-library functions (fmt, log, strconv, strings, bytes, encoding/binary, reflect, io, errors) do not write through their read arguments and are safe for concurrent use", "io.Writer.Write implementations obey the io contract (do not modify or retain p)", "caller-shared buffers are the caller's responsibility", "values of type error (sentinel errors) are immutable"}
 	R.Rule("globals", "no function other than a package initialiser writes to a package-level variable (directly, through an element/field address, through a reference loaded from it, or via copy/append/delete/map update)")
 	R.Rule("escape", "a reference to package-level storage is only handed to callees whose parameter is read-only, and is never stored into longer-lived memory, captured, sent, or returned (unless it points to a zero-size type)")
 	R.Rule("stdlib", "every callee outside the module is on the allowlist of functions without unsynchronised package-level state")
 	R.Rule("no-hidden-sharing", "the module starts no goroutines and imports neither sync nor unsafe")
+	R.Rule("self-bound", "a struct that stores method values bound to itself re-binds them after every whole-value assignment, on every path to a return (otherwise the copy runs the source's methods on the source's state)")
 	R.Exhaustive = true
+	checkSelfBound(ctx)
 	ta := newTaint(ctx)
 	funcs := ctx.Prog.AllFuncs()
 	R.Count("functions", len(funcs))
